@@ -9,6 +9,27 @@ use serde_json::{json, Value};
 use std::fmt::Debug;
 use std::panic::{self, AssertUnwindSafe};
 
+/// Generated parsers (pest_derive, built from /repo's working tree) for the repository's own
+/// construct-rich test grammars: every operator, the stack operations, built-ins, WHITESPACE and
+/// COMMENT. The same grammar files are also run through the VM.
+pub mod testgrammars {
+    pub mod grammar {
+        #[derive(pest_derive::Parser)]
+        #[grammar = "/repo/vm/tests/grammar.pest"]
+        pub struct P;
+    }
+    pub mod lists {
+        #[derive(pest_derive::Parser)]
+        #[grammar = "/repo/vm/tests/lists.pest"]
+        pub struct P;
+    }
+    pub mod reporting {
+        #[derive(pest_derive::Parser)]
+        #[grammar = "/repo/vm/tests/reporting.pest"]
+        pub struct P;
+    }
+}
+
 #[derive(Clone, Debug, PartialEq, Eq)]
 pub enum Backend {
     /// pest_vm on an arbitrary grammar text
@@ -19,6 +40,8 @@ pub enum Backend {
     Http,
     Sql,
     Meta,
+    /// generated parser of vm/tests/{grammar,lists,reporting}.pest, entered at `rule`
+    Test { grammar: String, rule: String },
 }
 
 impl Backend {
@@ -30,17 +53,23 @@ impl Backend {
             Backend::Http => "derive:http",
             Backend::Sql => "derive:sql",
             Backend::Meta => "derive:pest_meta",
+            Backend::Test { .. } => "derive:test-grammars",
         }
     }
     pub fn to_json(&self) -> Value {
         match self {
             Backend::Vm { grammar, rule } => json!({"kind":"vm","grammar":grammar,"rule":rule}),
+            Backend::Test { grammar, rule } => json!({"kind":"derive:test-grammars","grammar":grammar,"rule":rule}),
             other => json!({"kind": other.name()}),
         }
     }
     pub fn from_json(v: &Value) -> Option<Backend> {
         Some(match v.get("kind")?.as_str()? {
             "vm" => Backend::Vm {
+                grammar: v.get("grammar")?.as_str()?.to_string(),
+                rule: v.get("rule")?.as_str()?.to_string(),
+            },
+            "derive:test-grammars" => Backend::Test {
                 grammar: v.get("grammar")?.as_str()?.to_string(),
                 rule: v.get("rule")?.as_str()?.to_string(),
             },
@@ -238,6 +267,12 @@ impl Prepared {
                 }
                 Some((pest_vm::Vm::new(rules), rule.clone()))
             }
+            Backend::Test { grammar, rule } => {
+                if !test_grammar_rules(grammar).contains(rule) {
+                    return None;
+                }
+                None
+            }
             _ => None,
         };
         Some(Prepared { job: job.clone(), vm })
@@ -272,6 +307,23 @@ impl Prepared {
                 pest_meta::parser::parse(pest_meta::parser::Rule::grammar_rules, input),
                 input,
             ),
+            Backend::Test { grammar, rule } => {
+                macro_rules! go {
+                    ($m:ident) => {{
+                        let r = testgrammars::$m::Rule::all_rules()
+                            .iter()
+                            .copied()
+                            .find(|r| format!("{r:?}") == *rule)
+                            .expect("harness: unknown rule of a test grammar");
+                        from_result(<testgrammars::$m::P as Parser<_>>::parse(r, input), input)
+                    }};
+                }
+                match grammar.as_str() {
+                    "grammar" => go!(grammar),
+                    "lists" => go!(lists),
+                    _ => go!(reporting),
+                }
+            }
         }));
         match r {
             Ok(o) => o,
@@ -302,6 +354,62 @@ fn _unused() {
 // ---------------------------------------------------------------------------------------------
 // fixed corpus
 // ---------------------------------------------------------------------------------------------
+
+pub fn test_grammar_rules(grammar: &str) -> Vec<String> {
+    match grammar {
+        "grammar" => testgrammars::grammar::Rule::all_rules().iter().map(|r| format!("{r:?}")).collect(),
+        "lists" => testgrammars::lists::Rule::all_rules().iter().map(|r| format!("{r:?}")).collect(),
+        "reporting" => testgrammars::reporting::Rule::all_rules().iter().map(|r| format!("{r:?}")).collect(),
+        _ => vec![],
+    }
+}
+
+/// (grammar, rule, input) jobs over the repository's test grammars, through the generated
+/// parser and through the VM. `stride`/`offset` let each worker take a share.
+pub fn test_grammar_jobs() -> Vec<Job> {
+    let inputs_grammar: [&str; 34] = [
+        "", "abc", "abcabc", "abc abc", "abc  abc", "ABC", "aBc", "abcabcabc", "abc abc abc", "abc$$abc",
+        "abcabcabcabc", "0", "9", "a", "b", "abcd", "abc0", "a,b,c,cba", "a,b,c,", "a,b,cba", "ab", "aXa", "aa",
+        "01", "0110", "0111", "01234", "0123412", "bab", "ba", "\n\r\n", "é日", "shadows builtin", "a,b,c,cbaFAIL",
+    ];
+    let inputs_lists: [&str; 8] = [
+        "- a", "- a\n- b", "- a\n  - b", "- a\n  - b\n- c", "- a\n  - b\n    - c\n  - d", "- a\n - b\n  - c", "-a", "",
+    ];
+    let inputs_reporting: [&str; 9] = ["", "a", "b", "c", "x", "aa", "ab", "bb", "ba"];
+    let mut jobs = vec![];
+    for (g, file, inputs) in [
+        ("grammar", "/repo/vm/tests/grammar.pest", &inputs_grammar[..]),
+        ("lists", "/repo/vm/tests/lists.pest", &inputs_lists[..]),
+        ("reporting", "/repo/vm/tests/reporting.pest", &inputs_reporting[..]),
+    ] {
+        let text = std::fs::read_to_string(file).unwrap_or_default();
+        for rule in test_grammar_rules(g) {
+            if rule == "EOI" {
+                continue;
+            }
+            for inp in inputs {
+                let input = inp.replace("\\n", "\n").replace("\\r", "\r");
+                jobs.push(Job {
+                    backend: Backend::Test {
+                        grammar: g.to_string(),
+                        rule: rule.clone(),
+                    },
+                    input: input.clone(),
+                });
+                if !text.is_empty() {
+                    jobs.push(Job {
+                        backend: Backend::Vm {
+                            grammar: text.clone(),
+                            rule: rule.clone(),
+                        },
+                        input,
+                    });
+                }
+            }
+        }
+    }
+    jobs
+}
 
 pub struct Corpus {
     pub jobs: Vec<Job>,
@@ -394,5 +502,6 @@ pub fn fixed_corpus() -> Corpus {
             }
         }
     }
+    jobs.extend(test_grammar_jobs());
     Corpus { jobs }
 }
